@@ -14,7 +14,7 @@ import vlib
 import progs
 from gen import yl
 
-THEOREM_MODULES = ["Yarel.Props.C16", "Yarel.Props.GcCollector"]
+THEOREM_MODULES = ["Yarel.Props.C16", "Yarel.Props.GcCollector", "Yarel.Props.ModelLimits"]
 REQUIRED_THEOREMS = ["overshoot_le_one_alloc", "thr_is_twice_survivors", "no_unbounded_growth", "roots_exact",
                      "collect_complete", "sweep_bytes"]
 LEVEL = "proof"
